@@ -17,6 +17,7 @@ pub mod c16;
 pub mod c17;
 pub mod c18;
 pub mod c19;
+pub mod c20;
 
 pub fn run(prop: &str, ctx: &mut Ctx) -> bool {
     match prop {
@@ -38,6 +39,7 @@ pub fn run(prop: &str, ctx: &mut Ctx) -> bool {
         "C17" => c17::run(ctx),
         "C18" => c18::run(ctx),
         "C19" => c19::run(ctx),
+        "C20" => c20::run(ctx),
         _ => return false,
     }
     true
